@@ -33,7 +33,7 @@ theorem C02_esc_text_rest (c : Char) (h : c ≠ '&' ∧ c ≠ '<' ∧ c ≠ '>')
   simp [escTextChar, h.1, h.2.1, h.2.2]
 
 /-- decodes to exactly the original characters -/
-theorem C02_esc_text_decode (s : Str) : decodeRefs (escText cfg s) = s := by
+theorem C02_esc_text_decode (s : Str) : decodeCharRefs (escText cfg s) = s := by
   rw [C02_escText]; exact decode_escText s
 
 /-- can never open or close a tag, start a comment or a declaration: no '<' and no '>' survive -/
